@@ -93,6 +93,10 @@ func (b *fencedCodeBlockParser) Continue(node ast.Node, reader text.Reader, pc C
 		if pos < 0 {
 			pos = 0
 		}
+		// line starts with segment.Padding virtual spaces that are not in the source
+		if pos >= segment.Padding {
+			pos -= segment.Padding
+		}
 		padding = 0
 	}
 	seg := text.NewSegmentPadding(segment.Start+pos, segment.Stop, padding)
